@@ -11,7 +11,8 @@ from .. import shapes as S
 from ..core import fmt_list, parse_rats, frac, err_kind, close, exact, floats
 
 ID = "C15"
-MODULES = ["TWV.Properties.C15"]
+MODULES = ["TWV.Properties.C15", "TWV.Tie.ProcessFns", "TWV.Tie.WeaverStep"]
+TRANSLATORS = ["t10_process", "t9_weaver"]
 RULE = ("random signals of 1..40 samples (non-constant, sign-changing), scalar and per-sample snr, decibel and linear scale, "
         "explicit std; numpy.random.normal is replaced by a recorder that returns a scripted draw, so that the loc / scale / "
         "size arguments reaching the generator and the exact sum a + draw are observed; through process.noise_gauss and "
